@@ -74,3 +74,9 @@ package neo3_state_manager
 //@   ensures[c18-witness] Store != old(Store) ==> wit
 //@   ensures[c33-consumed] r1 == nil && fired ==> Store[svKey("stateValidatorRemove", cid)] == None
 //@   ensures[c33-onlyapproved] !fired ==> Store[svListKey()] == old(Store)[svListKey()]
+
+//@ func GetCurrentStateValidator
+//@   property C24
+//@   mode abstract
+//@   requires native != nil
+//@   modifies nothing
